@@ -541,6 +541,21 @@ def inline_helpers(program, fi, depth=2, toward=None):
 
     mod = fi.module
     helpers = {g.name: g for g in program.functions.values() if g.module is mod and g.cls is None and g.name != fi.name}
+    # methods of the same class called as self.m(...)
+    methods = {}
+    if getattr(fi, "cls", None) is not None:
+        methods = {m.name: m for m in fi.cls.methods.values() if m.cls is fi.cls and m.name != fi.name and m.params and m.params[0] == "self"}
+
+    def _callee(call):
+        """(helper FunctionInfo, its parameter names without self) for a call of a same-module function or self.method"""
+        if isinstance(call, ast.Call):
+            if isinstance(call.func, ast.Name) and call.func.id in helpers:
+                g = helpers[call.func.id]
+                return g, list(g.params)
+            if isinstance(call.func, ast.Attribute) and isinstance(call.func.value, ast.Name) and call.func.value.id == "self" and call.func.attr in methods:
+                g = methods[call.func.attr]
+                return g, list(g.params[1:])
+        return None, None
     caller_names = local_names(fi.node)
     inlined = set()
 
@@ -548,10 +563,11 @@ def inline_helpers(program, fi, depth=2, toward=None):
         if toward is None:
             return True
         for x in walk_function(g.node):
-            if isinstance(x, ast.Call) and isinstance(x.func, ast.Name):
-                if x.func.id in toward:
+            if isinstance(x, ast.Call):
+                nm = x.func.id if isinstance(x.func, ast.Name) else x.func.attr if isinstance(x.func, ast.Attribute) else None
+                if nm in toward:
                     return True
-                h = helpers.get(x.func.id)
+                h, _ = _callee(x)
                 if h is not None and h.key not in seen and reaches(h, seen + (g.key,)):
                     return True
         return False
@@ -561,10 +577,26 @@ def inline_helpers(program, fi, depth=2, toward=None):
 
     def _spliceable(call, g, want_value):
         """(body statements, returned expression or None) of helper g instantiated for `call`, or None"""
-        if call.keywords or len(call.args) != len(g.params):
+        gparams = list(g.params[1:]) if g.cls is not None else list(g.params)
+        if call.keywords or len(call.args) != len(gparams):
             return None
-        rets = [x for x in walk_function(g.node) if isinstance(x, ast.Return)]
-        body = [x for x in g.node.body if not (isinstance(x, ast.Expr) and isinstance(x.value, ast.Constant))]
+        body = [copy.deepcopy(x) for x in g.node.body if not (isinstance(x, ast.Expr) and isinstance(x.value, ast.Constant))]
+
+        def deguard(stmts):
+            # `if C: A; return` + rest  ==>  `if C: A else: rest`   (top-level guard clauses with a bare return)
+            for i, st in enumerate(stmts):
+                if isinstance(st, ast.If) and not st.orelse and st.body and isinstance(st.body[-1], ast.Return) and st.body[-1].value is None:
+                    rest = deguard(stmts[i + 1 :])
+                    st.body = st.body[:-1] or [ast.Pass()]
+                    st.orelse = rest
+                    return stmts[: i + 1]
+            if stmts and isinstance(stmts[-1], ast.Return) and stmts[-1].value is None:
+                return stmts[:-1]
+            return stmts
+
+        if not want_value:
+            body = deguard(body)
+        rets = [x for st in body for x in ast.walk(st) if isinstance(x, ast.Return)]
         ret_expr = None
         if rets:
             # only a single trailing `return <expr>` is understood
@@ -577,15 +609,17 @@ def inline_helpers(program, fi, depth=2, toward=None):
         # locals of the helper that also exist in the caller are left as they are: the inlined view is the function "as
         # if the block were written in place", which is what an extracted block was (the caller's own later reads of
         # such a name are preceded by its own assignment in every case met; facts are about calls and conditions)
-        for pn, a in zip(g.params, call.args):
+        for pn, a in zip(gparams, call.args):
             if pure(a):
                 continue
             # an argument with effects may only stand in for a parameter read exactly once, in the first statement
-            reads = [x for x in ast.walk(g.node) if isinstance(x, ast.Name) and x.id == pn and isinstance(x.ctx, ast.Load)]
+            scope = list(body) + ([rets[0]] if rets else [])
+            reads = [x for st_ in scope for x in ast.walk(st_) if isinstance(x, ast.Name) and x.id == pn and isinstance(x.ctx, ast.Load)]
+            reads = list({id(x): x for x in reads}.values())
             first = body[0] if body else rets[0] if rets else None
             if len(reads) != 1 or first is None or not any(x is reads[0] for x in ast.walk(first)):
                 return None
-        amap = dict(zip(g.params, call.args))
+        amap = dict(zip(gparams, call.args))
 
         class Sub(ast.NodeTransformer):
             def visit_Name(self, node):
@@ -593,15 +627,14 @@ def inline_helpers(program, fi, depth=2, toward=None):
                     return copy.deepcopy(amap[node.id])
                 return node
 
-        new_body = [Sub().visit(copy.deepcopy(x)) for x in body]
+        new_body = [Sub().visit(x) for x in body]
         new_ret = Sub().visit(copy.deepcopy(ret_expr)) if ret_expr is not None else None
         return new_body, new_ret
 
     def _helper_of(e):
-        if isinstance(e, ast.Call) and isinstance(e.func, ast.Name):
-            g = helpers.get(e.func.id)
-            if g is not None and (toward is None or (g.name not in toward and reaches(g))):
-                return g
+        g, _ = _callee(e)
+        if g is not None and (toward is None or (g.name not in toward and reaches(g))):
+            return g
         return None
 
     def expand(stmts, d):
@@ -628,6 +661,14 @@ def inline_helpers(program, fi, depth=2, toward=None):
                     if sp is not None and sp[1] is not None:
                         out.extend(expand(sp[0], d - 1))
                         st.test = sp[1]
+                        inlined.add(g.key)
+                elif isinstance(st, ast.Return) and isinstance(st.value, ast.Call) and isinstance(st.value.func, ast.Name) and helpers.get(st.value.func.id) is not None and (toward is None or st.value.func.id not in toward):
+                    # `return helper(...)`: the result tuple is built in a helper
+                    g = helpers[st.value.func.id]
+                    sp = _spliceable(st.value, g, True)
+                    if sp is not None and sp[1] is not None:
+                        out.extend(expand(sp[0], d - 1))
+                        st.value = sp[1]
                         inlined.add(g.key)
                 elif isinstance(st, ast.Assign) and _helper_of(st.value) is not None:
                     g = _helper_of(st.value)
